@@ -67,7 +67,9 @@ for d in sorted(glob.glob(os.path.join(V, 'seeded', 'C*'))):
         pass
     vl = m.get('violation_line', '')
     status = ('exit 1' + (' (no-failing-input-found)' if 'no-failing-input-found' in vl else ', concrete replay')) if m.get('detected') else f"exit {m.get('quick_check_exit')} — MISSED"
-    if m.get('obsolete'):
+    if m.get('out_of_range_note') and not m.get('detected'):
+        status = "exit 0 — judged OUTSIDE the property's range: " + str(m.get('out_of_range_note'))[:300].replace('|', '/')
+    elif m.get('obsolete'):
         status = 'exit 0 — rightly quiet: the change no longer breaks the property on the current /repo (see meta.json confirmed_note)'
     elif not m.get('confirmed') or str(m.get('confirmed')) == 'False':
         status += ' [not confirmed]'
